@@ -260,7 +260,7 @@ CHECKS = {
               "A1, A0, extrapolated last force, central differences, static rf). The driver applies the rules with the generic "
               "evaluator and compares SolveNewmark's d, v, a and z[...] over a lattice {diagonal, full} x mass {None, vector, "
               "matrix, singular} x rf x start {zero, d0+v0, d0 only, v0 only} x 0-3 nonlinear terms (cubic, gap, velocity-dependent backward "
-              "difference reading column j-1, i.e. the u_-1 column at the first call) x nt. CDF: every step of SolveCDF / cd_as_force must satisfy the "
+              "difference reading column j-1, i.e. the u_-1 column at the first call) x nt; every other full system is not symmetric. CDF: every step of SolveCDF / cd_as_force must satisfy the "
               "defining implicit relation (exact diagonal step driven by f - C_od v at both ends), with the exact diagonal step "
               "from the terms of specs/OdeModel.tla at 40 digits - for histories produced by tsolve and by the generator with steps "
               "taken again after stepping ahead (different force the first time). Laws: diagonal damping => SolveCDF bit-identical to SolveUnc; "
